@@ -628,6 +628,16 @@ def check(run):
         cont = rng.choice(['MP', 'ML', 'MT', 'FC', 'TR'])
         mk = {'MP': 'PB', 'ML': 'L', 'MT': 'T', 'FC': 'PLTB', 'TR': 'PLTB'}[cont]
         ms = [member_tokens(rng, rng.choice(mk)) for _ in range(rng.randrange(1, 6))]
+        if rng.random() < 0.25:
+            # a member whose box touches longitude / latitude exactly 0.0 listed before members that do not reach as far
+            # (seeded change C09-n3: a running extreme of 0.0 is falsy in `min(min_lon or lon0, lon0)`)
+            z = {'P': ['P', '0', '0', '1', '0', '1', '1', '0', '1'], 'B': ['B', '0', '1', '1', '0'], 'L': ['L', '0', '0', '1', '1'],
+                 'T': ['T', '0', '0']}[rng.choice(mk)]
+            far = {'P': ['P', '2', '2', '3', '2', '3', '3'], 'B': ['B', '2', '3', '3', '2'], 'L': ['L', '2', '2', '3', '3'],
+                   'T': ['T', '3', '2']}[rng.choice(mk)]
+            neg = {'P': ['P', '-3', '-3', '-2', '-3', '-2', '-2'], 'B': ['B', '-3', '-2', '-2', '-3'], 'L': ['L', '-3', '-3', '-2', '-2'],
+                   'T': ['T', '-3', '-2']}[rng.choice(mk)]
+            ms = [z, rng.choice([far, neg])] + ms[:2]
         body = ' | '.join(' '.join(x) for x in ms)
         lines_u.append(f'bd.union{cont} {body}')
         if cont in ('MP', 'ML'):
@@ -725,7 +735,16 @@ def check(run):
             pts = [(x, y), (x + w, y), (x + w * rng.uniform(0.3, 0.7), y + w * rng.uniform(0.05, 0.2))]
             rng.shuffle(pts)
             pts = [(C(*p).longitude, C(*p).latitude) for p in pts]
-        polys.append((pts, 'symmetric' if sym else ('right-triangle' if i % 6 == 1 else ('obtuse-triangle' if i % 6 == 2 else f'n={len(pts)}'))))
+        cocirc = i % 6 == 3
+        if cocirc:         # (nearly) cocircular vertices at small scale: the polygon form of a 2-20 km circle (extent >= 0.02 deg, the quantified range) (seeded
+            #                 change C09-n1 gave Welzl's "already inside" test a centimetre of slack)
+            from geostructures import GeoCircle
+            cc = observe(lambda: [(c.longitude, c.latitude) for c in GeoCircle(
+                C(pts[0][0], max(-75.0, min(75.0, pts[0][1]))), rng.choice([2000.0, 5000.0, 20000.0])).bounding_coords(
+                    k=rng.choice([8, 12, 24, 36]))[:-1]])
+            if cc:
+                pts = cc
+        polys.append((pts, 'symmetric' if sym else ('right-triangle' if i % 6 == 1 else ('obtuse-triangle' if i % 6 == 2 else ('cocircular-small' if cocirc else f'n={len(pts)}')))))
     lines_wz, lines_min = [], []
     nseeds = run.scale(64, 1024)
     for pts, kind in polys:
@@ -733,7 +752,9 @@ def check(run):
         if not stored:
             continue
         pts = stored          # GeoPolygon re-orients a clockwise outline: the algorithm indexes the stored order
-        for seed in rng.sample(range(nseeds), run.scale(4, 8)):
+        # nearly cocircular vertices decide `rad >= dist` in the last bit, where the model's Float evaluation and numpy's
+        # long-double cross products may differ: they are judged by the all-seeds oracle only, not replayed through the model
+        for seed in ([] if kind == 'cocircular-small' else rng.sample(range(nseeds), run.scale(4, 8))):
             got = observe(lambda: record_choices(GeoPolygon([C(*p) for p in pts]).circumscribing_circle, seed))
             if got is None:
                 continue
